@@ -18,6 +18,9 @@ REJECTED = ['A node goes from 1 to 3.\n$', 'A node is identified', 'A node goes 
             'A node is identified by an id, and has a weight.\nIt is prohibited that the total of phantom of a node is greater than 2.\n',
             # uses a concept that only an EARLIER text of the history declares: must stay rejected
             'It is prohibited that there is a node with id 2, with weight W, where W is greater than 10.\n']
+# accepted texts that leave traces in shared objects (a pronoun subject initialises the parser's shared placeholder entity);
+# kept here and not in corpus/regressions because their output is not meaningful ASP for the other properties' models
+PROBES = ['A node is identified by an id.\nThey go to a node.\n']
 DECLARES_NODE = 'A node is identified by an id, and has a weight.\nA node goes from 1 to 3.\n'
 
 
@@ -41,7 +44,7 @@ def run(tier, seed):
     accepted = [gen_wide.text_of(gen_wide.generate(rnd)) for _ in range(12 if tier == 'quick' else 60)]
     loaded = corpus.load()
     accepted += [t for _, t in loaded if len(t) < 2500][:(8 if tier == 'quick' else 40)]
-    regress = [t for n, t in loaded if n.startswith('regressions/')]
+    regress = [t for n, t in loaded if n.startswith('regressions/')] + PROBES
     accepted += [t for t in regress if t not in accepted] + [DECLARES_NODE]
     nh = 40 if tier == 'quick' else 400
     seeds = [0, 1, 2, 3] if tier == 'quick' else [0, 1, 2, 3, 4, 5, 31337, 424242]
